@@ -280,6 +280,70 @@ func engineC27(c *vctx) error {
 		return
 	}
 
+	type c27Orig struct {
+		id     restic.ID
+		term   string
+		dirs   map[string]restic.ID
+		npaths int
+		w      *c27Walker
+	}
+	var origs []*c27Orig
+	emitCase := func(o *c27Orig, nsn *data.Snapshot, origAlive bool, mode string, pats, ipats []string, tag string) error {
+		modified := nsn != nil || !origAlive
+		newTerm, same := "[]", []string{}
+		var sumFiles, sumBytes uint64
+		nEntries := 0
+		if modified && nsn == nil {
+			// the command removed the original snapshot ("removed empty snapshot"): reported as an empty result
+			sumFiles = 1 << 40
+		}
+		if modified && nsn != nil {
+			if nsn.Original == nil || *nsn.Original != o.id {
+				return fmt.Errorf("new snapshot does not name the original")
+			}
+			newNodes, err := walkTree(o.w, *nsn.Tree)
+			if err != nil {
+				return err
+			}
+			newTerm = c27Term(newNodes)
+			var np []string
+			newDirs := map[string]restic.ID{}
+			c27Paths("", newNodes, &np, newDirs)
+			nEntries = len(np)
+			for _, p := range np {
+				if id, ok := newDirs[p]; ok {
+					if oid, ok2 := o.dirs[p]; ok2 && oid == id {
+						same = append(same, p)
+					}
+				}
+			}
+			if nsn.Summary != nil {
+				sumFiles, sumBytes = uint64(nsn.Summary.TotalFilesProcessed), nsn.Summary.TotalBytesProcessed
+			} else {
+				sumFiles = 1 << 40 // no summary: reported as a wrong one
+			}
+		}
+		cs := func(l []string) string {
+			x := make([]string, len(l))
+			for i, s := range l {
+				x[i] = coqStr(s)
+			}
+			return coqList(x)
+		}
+		term := fmt.Sprintf("C27m.mk C27m.%s %s %s %s %s %s (%d%%N, %d%%N) %s", mode, cs(ipats), cs(pats), o.term, coqBool(modified), newTerm, sumFiles, sumBytes, cs(same))
+		kind := tag + strings.ToLower(mode[1:])
+		if !modified {
+			kind += "-unmodified"
+		}
+		c.Hist(fmt.Sprintf("kept-fraction=%d/4", 4*nEntries/max(1, o.npaths)))
+		sort.Strings(same)
+		if !origAlive {
+			kind = "snapshot-removed"
+		}
+		c.Case(kind, o.npaths >= 4, o.npaths+len(pats)+len(ipats), term,
+			fmt.Sprintf("tree=%d entries mode=%s pats=%q ipats=%q -> modified=%v entries=%d same-subtrees=%q summary=(%d,%d)", o.npaths, mode, pats, ipats, modified, nEntries, same, sumFiles, sumBytes))
+		return nil
+	}
 	ntrees := c.n(5, 30)
 	nrw := c.n(13, 30)
 	seen := map[restic.ID]bool{}
@@ -340,6 +404,8 @@ func engineC27(c *vctx) error {
 		oldDirs := map[string]restic.ID{}
 		c27Paths("", oldNodes, &paths, oldDirs)
 		oldTerm := c27Term(oldNodes)
+		cur := &c27Orig{id: origID, term: oldTerm, dirs: oldDirs, npaths: len(paths), w: w}
+		origs = append(origs, cur)
 
 		for ri := 0; ri < nrw; ri++ {
 			mode := "MExclude"
@@ -398,61 +464,88 @@ func engineC27(c *vctx) error {
 				seen[id] = true
 			}
 			_, origAlive := sns[origID]
-			modified := nsn != nil || !origAlive
-			newTerm, same := "[]", []string{}
-			var sumFiles, sumBytes uint64
-			nEntries := 0
-			if modified && nsn == nil {
-				// the command removed the original snapshot ("removed empty snapshot"): reported as an empty result
-				sumFiles = 1 << 40
+			if err := emitCase(cur, nsn, origAlive, mode, pats, ipats, ""); err != nil {
+				return err
 			}
-			if modified && nsn != nil {
-				if nsn.Original == nil || *nsn.Original != origID {
-					return fmt.Errorf("new snapshot does not name the original")
-				}
-				newNodes, err := walkTree(w, *nsn.Tree)
-				if err != nil {
-					return err
-				}
-				newTerm = c27Term(newNodes)
-				var np []string
-				newDirs := map[string]restic.ID{}
-				c27Paths("", newNodes, &np, newDirs)
-				nEntries = len(np)
-				for _, p := range np {
-					if id, ok := newDirs[p]; ok {
-						if oid, ok2 := oldDirs[p]; ok2 && oid == id {
-							same = append(same, p)
-						}
-					}
-				}
-				if nsn.Summary != nil {
-					sumFiles, sumBytes = uint64(nsn.Summary.TotalFilesProcessed), nsn.Summary.TotalBytesProcessed
-				} else {
-					sumFiles = 1 << 40 // no summary: reported as a wrong one
-				}
-			}
-			cs := func(l []string) string {
-				x := make([]string, len(l))
-				for i, s := range l {
-					x[i] = coqStr(s)
-				}
-				return coqList(x)
-			}
-			term := fmt.Sprintf("C27m.mk C27m.%s %s %s %s %s %s (%d%%N, %d%%N) %s", mode, cs(ipats), cs(pats), oldTerm, coqBool(modified), newTerm, sumFiles, sumBytes, cs(same))
-			kind := strings.ToLower(mode[1:])
-			if !modified {
-				kind += "-unmodified"
-			}
-			c.Hist(fmt.Sprintf("kept-fraction=%d/4", 4*nEntries/max(1, len(paths))))
-			sort.Strings(same)
-			if !origAlive {
-				kind = "snapshot-removed"
-			}
-			c.Case(kind, len(paths) >= 4, len(paths)+len(pats)+len(ipats), term,
-				fmt.Sprintf("tree=%d entries mode=%s pats=%q ipats=%q -> modified=%v entries=%d same-subtrees=%q summary=(%d,%d)", len(paths), mode, pats, ipats, modified, nEntries, same, sumFiles, sumBytes))
 			if !origAlive {
 				break
+			}
+		}
+	}
+
+	// ---- several snapshots in ONE rewrite invocation: every result is judged against its own tree ----
+	type multi struct {
+		mode        string
+		pats, ipats []string
+	}
+	runs := []multi{
+		{"MExclude", []string{"*.go"}, nil},
+		{"MExclude", []string{"nomatch-anything"}, nil}, // no snapshot may change
+		{"MInclude", []string{"*.go", "README"}, nil},
+		{"MInclude", []string{"*"}, nil}, // keeps everything: no snapshot may change
+		{"MExclude", []string{"a", "b"}, []string{"*.TXT"}},
+	}
+	mrng := c.rng.fork()
+	for k := c.n(0, 10); k > 0; k-- {
+		m := multi{mode: mrng.pick("MInclude", "MExclude")}
+		for i := 1 + mrng.intn(2); i > 0; i-- {
+			m.pats = append(m.pats, mrng.pick("*.go", "*.txt", "a", "b", "README", "lnk", "sub", "A*", "c", "d", "x.*", "nomatch"))
+		}
+		runs = append(runs, m)
+	}
+	for ri, m := range runs {
+		sns, err := snapshots()
+		if err != nil {
+			return err
+		}
+		var alive []*c27Orig
+		for _, o := range origs {
+			if _, ok := sns[o.id]; ok {
+				alive = append(alive, o)
+			}
+		}
+		if len(alive) < 2 {
+			break
+		}
+		n := 2 + ri%2
+		if n > len(alive) {
+			n = len(alive)
+		}
+		start := ri % len(alive)
+		var sel []*c27Orig
+		for i := 0; i < n; i++ {
+			sel = append(sel, alive[(start+i)%len(alive)])
+		}
+		args := []string{"rewrite"}
+		for _, p := range m.pats {
+			args = append(args, map[string]string{"MInclude": "--include", "MExclude": "--exclude"}[m.mode], p)
+		}
+		for _, p := range m.ipats {
+			args = append(args, map[string]string{"MInclude": "--iinclude", "MExclude": "--iexclude"}[m.mode], p)
+		}
+		for _, o := range sel {
+			args = append(args, o.id.String())
+		}
+		if _, se, err := e.cli(args...); err != nil {
+			return fmt.Errorf("rewrite %v: %v %s", args, err, se)
+		}
+		sns, err = snapshots()
+		if err != nil {
+			return err
+		}
+		fresh := map[restic.ID]*data.Snapshot{} // original -> new snapshot written by this invocation
+		for id, sn := range sns {
+			if !seen[id] {
+				if sn.Original != nil {
+					fresh[*sn.Original] = sn
+				}
+				seen[id] = true
+			}
+		}
+		for _, o := range sel {
+			_, origAlive := sns[o.id]
+			if err := emitCase(o, fresh[o.id], origAlive, m.mode, m.pats, m.ipats, fmt.Sprintf("multi%d-", len(sel))); err != nil {
+				return err
 			}
 		}
 	}
